@@ -29,13 +29,22 @@ TraceReset ==
 
 TraceJoin ==
   /\ IsEvent("Join")
-  /\ IF ~failed /\ Trace[l].c \in {"t1", "t2", "rg"}
-     THEN ep' = EpJoin(ep, hist, Trace[l].c) /\ failed' = FALSE /\ UNCHANGED <<vc, ac, hist, cons, rtp, rm, act, fragMs>>
+  /\ IF ~failed /\ Trace[l].c \in {"t1", "t2", "rg", "rh"}
+     THEN /\ ep' = IF Trace[l].c = "rh" THEN ep ELSE EpJoin(ep, hist, Trace[l].c)
+          /\ failed' = FALSE /\ UNCHANGED <<vc, ac, hist, cons, rtp, rm, act, fragMs>>
      ELSE Reject({"join"})
+\* SETUP / PLAY of the second RTSP subscriber (what it is handed is reported with the messages)
+TracePlay == /\ IsEvent("Play") /\ UNCHANGED <<vc, ac, hist, cons, rtp, rm, ep, act, fragMs, failed>>
 
 ConsAfter(h, o) == [c \in TsAll |-> IF c \in DOMAIN o THEN AcceptOut(h, cons[c], o[c]) ELSE cons[c]]
 RgAfter(h, e, o) == IF o.panic = "" THEN AcceptRtp(h, EpSdps(h, e, rtp["rg"], o.sdp, 1), o.frames, 1)
                     ELSE [rtp["rg"] EXCEPT !.ok = FALSE]
+\* rh: judged like rg in the epoch it joins in; once it has stayed across a republish only AcceptStay applies
+RhAfter(h, e, x) == IF "rh" \notin DOMAIN x THEN rtp["rh"]
+                    ELSE LET o == x["rh"] IN
+                         IF o.panic # "" THEN [rtp["rh"] EXCEPT !.ok = FALSE]
+                         ELSE IF e.stay THEN (IF o.sdp # <<>> THEN [rtp["rh"] EXCEPT !.ok = FALSE] ELSE AcceptStay(h, rtp["rh"], o.frames, 1))
+                         ELSE AcceptRtp(h, EpSdps(h, e, rtp["rh"], o.sdp, 1), o.frames, 1)
 
 TracePub ==
   /\ IsEvent("Pub")
@@ -44,13 +53,15 @@ TracePub ==
          e2 == EpPub(ep, e.m)
          c2 == ConsAfter(h2, e.out)
          r2 == RgAfter(h2, e2, e.rtp.rg)
+         r3 == RhAfter(h2, e2, e.rtp)
      IN IF /\ ~failed /\ ep.live /\ e.panic = ""
            /\ IsT3(e.ts)
            /\ \A c \in TsAll : c2[c].ok
-           /\ r2.ok
-        THEN /\ hist' = h2 /\ cons' = c2 /\ rtp' = [rtp EXCEPT !["rg"] = r2] /\ ep' = e2 /\ failed' = FALSE
+           /\ r2.ok /\ r3.ok
+        THEN /\ hist' = h2 /\ cons' = c2 /\ rtp' = [rtp EXCEPT !["rg"] = r2, !["rh"] = r3] /\ ep' = e2 /\ failed' = FALSE
              /\ UNCHANGED <<vc, ac, rm, act, fragMs>>
         ELSE Reject({c \in TsAll : ~c2[c].ok} \cup (IF r2.ok THEN {} ELSE {"rg"}) \cup (IF e.panic = "" THEN {} ELSE {"panic"})
+                    \cup (IF r3.ok THEN {} ELSE {IF ep.stay THEN "stay:rh" ELSE "rh"})
                     \cup (IF ep.live THEN {} ELSE {"no_publisher"}))
 
 \* the publisher leaves: what is flushed still belongs to its stream; the HLS segments listed for this epoch are its
@@ -61,6 +72,7 @@ TracePubLeave ==
          c1 == ConsAfter(hist, e.out)
          c2 == [c1 EXCEPT !["hls"] = AcceptOut(hist, c1["hls"], e.hls)]
          r2 == RgAfter(hist, ep, e.rtp.rg)
+         r3 == RhAfter(hist, ep, e.rtp)
          late == {c \in TsAll : ep.since[c] > 0}
          early == {c \in TsAll : ep.since[c] = 0 /\ (c = "hls" => e.hls.on)}
          bad == {c \in TsAll : ~c2[c].ok}
@@ -69,12 +81,14 @@ TracePubLeave ==
                 \cup {"joinstart:" \o c : c \in {x \in late : c2[x].ok /\ ~JoinStartsInTime(hist, c2[x], ep.since[x])}}
                 \cup (IF e.hls.on /\ c2["hls"].ok /\ ~KeyCuts(hist, e.hls, fragMs) THEN {"keycuts:hls"} ELSE {})
                 \cup (IF r2.ok THEN {} ELSE {"rg"})
+                \cup (IF r3.ok THEN {} ELSE {IF ep.stay THEN "stay:rh" ELSE "rh"})
+                \cup (IF r3.ok /\ ~(IF ep.stay THEN StayEndOk(hist, r3) ELSE RtpEndOk(hist, r3)) THEN {IF ep.stay THEN "stayend:rh" ELSE "end:rh"} ELSE {})
                 \cup (IF r2.ok /\ ~RtpEndOk(hist, r2) THEN {"end:rg"} ELSE {})
                 \cup (IF r2.ok /\ ~SdpArrives(hist, ep, r2) THEN {"nosdp:rg"} ELSE {})
                 \cup (IF e.panic = "" THEN {} ELSE {"panic"})
                 \cup (IF ep.live THEN {} ELSE {"no_publisher"})
      IN IF ~failed /\ bad = {}
-        THEN /\ cons' = c2 /\ rtp' = [rtp EXCEPT !["rg"] = r2] /\ ep' = EpLeave(ep) /\ failed' = FALSE
+        THEN /\ cons' = c2 /\ rtp' = [rtp EXCEPT !["rg"] = r2, !["rh"] = r3] /\ ep' = EpLeave(ep) /\ failed' = FALSE
              /\ UNCHANGED <<vc, ac, hist, rm, act, fragMs>>
         ELSE Reject(bad)
 
@@ -84,11 +98,11 @@ TracePubArrive ==
   /\ LET e == Trace[l]
      IN IF ~failed /\ ~ep.live /\ e.err = ""
         THEN /\ vc' = e.v /\ ac' = e.a /\ hist' = HistInit /\ cons' = [c \in TsAll |-> ConsInit]
-             /\ rtp' = [c \in RtpCons |-> RtpInit] /\ ep' = EpArrive(ep) /\ failed' = FALSE
+             /\ rtp' = [c \in RtpCons |-> RtpInit] /\ ep' = [EpArrive(ep) EXCEPT !.stay = ep.stay \/ rtp["rh"].sdp] /\ failed' = FALSE
              /\ UNCHANGED <<rm, act, fragMs>>
         ELSE Reject({"arrive"})
 
-TraceNext == TraceReset \/ TraceJoin \/ TracePub \/ TracePubLeave \/ TracePubArrive
+TraceNext == TraceReset \/ TraceJoin \/ TracePlay \/ TracePub \/ TracePubLeave \/ TracePubArrive
 TraceSpec == TraceInit /\ [][TraceNext]_tvars
 HighWater == TLCSet(1, IF l > TLCGet(1) THEN l ELSE TLCGet(1))
 Accept == PrintT("@HW@" \o ToString(TLCGet(1)))
